@@ -79,7 +79,15 @@ def fudge(fn):
     if len(args) != 3:
         fail(name, "expected three parameters")
     old, new, flag = args
-    b = body_of(fn)
+    b = list(body_of(fn))
+    # an optional first statement that moves an aware old time to UTC before the arithmetic:
+    #   if <old>.utcoffset() is not None: <old> = <old>.astimezone(<utc>)
+    utc_first = False
+    if b and isinstance(b[0], ast.If) and up(b[0].test) == "%s.utcoffset() is not None" % old and len(b[0].body) == 1 \
+            and not b[0].orelse and isinstance(b[0].body[0], ast.Assign) and up(b[0].body[0].targets[0]) == old \
+            and up(b[0].body[0].value) in ("%s.astimezone(dt.timezone.utc)" % old, "%s.astimezone(pytz.utc)" % old):
+        utc_first = True
+        b = b[1:]
     if not (len(b) == 2 and isinstance(b[0], ast.If) and isinstance(b[0].test, ast.Name) and b[0].test.id == flag
             and isinstance(b[1], ast.Return) and isinstance(b[1].value, ast.Name) and b[1].value.id == new):
         fail(name, "unrecognised shape (if <flag>: ... else: ...; return <new>)")
@@ -107,7 +115,7 @@ def fudge(fn):
 
     c21, _, p21 = branch(b[0].body, False)
     c20, t20, p20 = branch(b[0].orelse, True)
-    return {"f21_cmp": c21, "f21_push": p21, "f20_cmp": c20, "f20_threshold": t20, "f20_push": p20}
+    return {"f21_cmp": c21, "f21_push": p21, "f20_cmp": c20, "f20_threshold": t20, "f20_push": p20, "fudge_utc_first": utc_first}
 
 
 def contains_call(node, fname):
@@ -326,6 +334,7 @@ Open Scope Z_scope. Open Scope string_scope.
 Definition src_cfg : vsrc := {|
   s_f21_cmp := %s; s_f21_push := %d;
   s_f20_cmp := %s; s_f20_threshold := %d; s_f20_push := %d;
+  s_fudge_utc_first := %s;
   s_i_check := %d; s_i_revoked := (%d); s_i_copy := (%d); s_i_unmod := %d; s_i_parse_old := %d; s_i_branch := %d; s_i_update := %d;
   s_unmod_lists := %s;
   s_unmod_test := %s;
@@ -342,7 +351,7 @@ Definition src_cfg : vsrc := {|
   s_revoke_call := %s;
   s_cvo := %s
 |}.
-""" % (d["f21_cmp"], d["f21_push"], d["f20_cmp"], d["f20_threshold"], d["f20_push"],
+""" % (d["f21_cmp"], d["f21_push"], d["f20_cmp"], d["f20_threshold"], d["f20_push"], "true" if d["fudge_utc_first"] else "false",
        d["i_check"], d["i_revoked"], d["i_copy"], d["i_unmod"], d["i_parse_old"], d["i_branch"], d["i_update"],
        coq_strs(d["unmod_lists"]), coq_str(d["unmod_test"]), coq_strs(d["old_sources"]), coq_strs(d["parse_precision"]), coq_strs(d["parse_constraint"]),
        coq_str(d["constraint_21"]), coq_str(d["constraint_test"]), coq_str(d["constraint_else"]),
